@@ -19,17 +19,15 @@ theorem eq_of_nodup_map {α β : Type} {f : α → β} : ∀ {l : List α}, (l.m
 def DeletedMono (older newer : Root) : Prop :=
   ∀ so ∈ older.segs, ∀ sn ∈ newer.segs, so.sid = sn.sid → ∀ x ∈ so.deleted, x ∈ sn.deleted
 
-/-- invariants of a history of roots (most recent first) and the segment-id counter -/
-structure HistInv (h : List Root) (n : Nat) : Prop where
+/-- invariants of a history of roots (most recent first) -/
+structure HistInv (h : List Root) : Prop where
   wf : ∀ r ∈ h, r.WF
-  bound : ∀ r ∈ h, ∀ ss ∈ r.segs, ss.sid ≤ n
   cons : ∀ r1 ∈ h, ∀ r2 ∈ h, SidConsistent r1 r2
   nodup : ∀ r ∈ h, r.sids.Nodup
   mono : h.Pairwise (fun newer older => DeletedMono older newer)
 
-theorem HistInv.init : HistInv [Root.empty] 0 where
+theorem HistInv.init : HistInv [Root.empty] where
   wf := by intro r hr; simp at hr; subst hr; intro ss hss; simp [Root.empty] at hss
-  bound := by intro r hr; simp at hr; subst hr; intro ss hss; simp [Root.empty] at hss
   cons := by
     intro r1 h1 r2 h2; simp at h1; subst h1
     intro s0 hs0; simp [Root.empty] at hs0
@@ -37,29 +35,22 @@ theorem HistInv.init : HistInv [Root.empty] 0 where
   mono := by simp
 
 /-- how a new root may be derived from the current one: every segment snapshot is an old segment (same id and
-documents, deleted set grown) or *the* new segment with a fresh id `f` -/
-def Derived (r r' : Root) (n n' f : Nat) (nd : List Doc) : Prop :=
+documents, deleted set grown) or *the* new segment, whose id `f` no segment of any root of the history has -/
+def Derived (hist : List Root) (r r' : Root) (f : Nat) (nd : List Doc) : Prop :=
   ∀ ss ∈ r'.segs,
     (∃ s0 ∈ r.segs, ss.sid = s0.sid ∧ ss.docs = s0.docs ∧ ∀ x ∈ s0.deleted, x ∈ ss.deleted) ∨
-    (ss.sid = f ∧ ss.docs = nd ∧ n < f ∧ f ≤ n')
+    (ss.sid = f ∧ ss.docs = nd ∧ ∀ x ∈ hist, ∀ s ∈ x.segs, s.sid ≠ f)
 
 /-- the invariants survive the installation of any root derived from the current one -/
-theorem HistInv.push {r : Root} {past : List Root} {n : Nat} (hi : HistInv (r :: past) n)
-    {r' : Root} {n' f : Nat} {nd : List Doc} (hn : n ≤ n')
-    (hder : Derived r r' n n' f nd) (hwf : r'.WF) (hnd : r'.sids.Nodup) :
-    HistInv (r' :: r :: past) n' where
+theorem HistInv.push {r : Root} {past : List Root} (hi : HistInv (r :: past))
+    {r' : Root} {f : Nat} {nd : List Doc}
+    (hder : Derived (r :: past) r r' f nd) (hwf : r'.WF) (hnd : r'.sids.Nodup) :
+    HistInv (r' :: r :: past) where
   wf := by
     intro x hx
     rcases List.mem_cons.mp hx with rfl | hx
     · exact hwf
     · exact hi.wf x hx
-  bound := by
-    intro x hx ss hss
-    rcases List.mem_cons.mp hx with rfl | hx
-    · rcases hder ss hss with ⟨s0, hs0, h1, _, _⟩ | ⟨_, _, _, h4⟩
-      · have := hi.bound r List.mem_cons_self s0 hs0; omega
-      · omega
-    · have := hi.bound x hx ss hss; omega
   cons := by
     have hr : r ∈ r :: past := List.mem_cons_self
     -- new root against an old root
@@ -67,22 +58,22 @@ theorem HistInv.push {r : Root} {past : List Root} {n : Nat} (hi : HistInv (r ::
       intro x hx
       constructor
       · intro s1 hs1 s2 hs2 hsid
-        rcases hder s1 hs1 with ⟨s0, hs0, h1, h2, _⟩ | ⟨h1, _, h3, _⟩
+        rcases hder s1 hs1 with ⟨s0, hs0, h1, h2, _⟩ | ⟨h1, _, h3⟩
         · rw [h2]; exact hi.cons r hr x hx s0 hs0 s2 hs2 (by omega)
-        · have := hi.bound x hx s2 hs2; omega
+        · exact absurd (by omega) (h3 x hx s2 hs2)
       · intro s2 hs2 s1 hs1 hsid
-        rcases hder s1 hs1 with ⟨s0, hs0, h1, h2, _⟩ | ⟨h1, _, h3, _⟩
+        rcases hder s1 hs1 with ⟨s0, hs0, h1, h2, _⟩ | ⟨h1, _, h3⟩
         · rw [h2]; exact hi.cons x hx r hr s2 hs2 s0 hs0 (by omega)
-        · have := hi.bound x hx s2 hs2; omega
+        · exact absurd (by omega) (h3 x hx s2 hs2)
     intro r1 m1 r2 m2
     rcases List.mem_cons.mp m1 with e1 | h1 <;> rcases List.mem_cons.mp m2 with e2 | h2
     · subst e1; subst e2
       intro s1 hs1 s2 hs2 hsid
-      rcases hder s1 hs1 with ⟨a, ha, a1, a2, _⟩ | ⟨a1, a2, a3, _⟩ <;>
-      rcases hder s2 hs2 with ⟨b, hb, b1, b2, _⟩ | ⟨b1, b2, b3, _⟩
+      rcases hder s1 hs1 with ⟨a, ha, a1, a2, _⟩ | ⟨a1, a2, a3⟩ <;>
+      rcases hder s2 hs2 with ⟨b, hb, b1, b2, _⟩ | ⟨b1, b2, b3⟩
       · rw [a2, b2]; exact hi.cons r hr r hr a ha b hb (by omega)
-      · have := hi.bound r hr a ha; omega
-      · have := hi.bound r hr b hb; omega
+      · exact absurd (by omega) (b3 r hr a ha)
+      · exact absurd (by omega) (a3 r hr b hb)
       · rw [a2, b2]
     · subst e1; exact (key r2 h2).1
     · subst e2; exact (key r1 h1).2
@@ -96,7 +87,7 @@ theorem HistInv.push {r : Root} {past : List Root} {n : Nat} (hi : HistInv (r ::
     rw [List.pairwise_cons]
     refine ⟨?_, hi.mono⟩
     intro older hold so hso sn hsn hsid x hx
-    rcases hder sn hsn with ⟨s0, hs0, h1, _, h3⟩ | ⟨h1, _, h3, _⟩
+    rcases hder sn hsn with ⟨s0, hs0, h1, _, h3⟩ | ⟨h1, _, h3⟩
     · apply h3
       rcases List.mem_cons.mp hold with rfl | hold
       · -- older = r: same root, same id ⇒ same snapshot (ids are unique in a root)
@@ -105,6 +96,6 @@ theorem HistInv.push {r : Root} {past : List Root} {n : Nat} (hi : HistInv (r ::
         rw [← this]; exact hx
       · have hm := (List.pairwise_cons.mp hi.mono).1 older hold
         exact hm so hso s0 hs0 (by omega) x hx
-    · have := hi.bound older hold so hso; omega
+    · exact absurd (by omega) (h3 older hold so hso)
 
 end Bluge.Index
